@@ -23,7 +23,7 @@ RULE = ("seeded generator of handler configurations: array rank 2-4, 1-3 distrib
         "(1,n) and (n,1), extents biased to n=p, p+1, 2p-1, primes and 1, layout sets = the three physics orderings or "
         "2-6 random distinct permutations; per configuration ALL ordered layout pairs (incl. a->a) with and without "
         "spare buffer, then a random walk of 10-30 transposes re-using three buffers without clearing (stale data), "
-        "float/complex/int unique-id payload, seeded-random arrival order.  A class is (array rank, grid pattern, "
+        "float64/complex128/int64 and float32/int32/complex64 unique-id payload, seeded-random arrival order.  A class is (array rank, grid pattern, "
         "even|uneven blocks, path kind from the trace [0 Alltoall local / 1 / k-step], buffer, dtype); only transposes "
         "whose destination block was compared count.")
 ASSUMPTIONS = ["simulated MPI layer (threads as ranks) is faithful for Create_cart/Sub/Alltoall (self-tested before every run)",
@@ -75,7 +75,7 @@ def gen_config(rng, Pmax, nmax):
         if r == 1 and rng.random() < 0.1:
             n = 1
         shape.append(int(min(n, max(nmax, r))))
-    dtype = rng.choice(["float", "float", "complex", "int"])
+    dtype = rng.choice(["float", "float", "complex", "int", "float32", "int32", "complex64"])
     return {"shape": shape, "nprocs": nprocs, "layouts": layouts, "dtype": dtype}
 
 
